@@ -214,6 +214,16 @@ def background_image(style, name, values):
     return values
 
 
+@register_computer('border-image-source')
+@register_computer('mask-border-source')
+@register_computer('list-style-image')
+def image(style, name, value):
+    """Compute lengths in a gradient used as a single image."""
+    # A single (type, value) pair, computed in place like background layers
+    background_image(style, name, (value,))
+    return value
+
+
 @register_computer('background-position')
 @register_computer('object-position')
 def compute_position(style, name, values):
